@@ -9,7 +9,7 @@ ID = "C19"
 LEVEL = "exploration"
 PRESETS = ["covalent", "vdw", "vdw_covalent"]
 NO_VDW = [61, 84, 85, 86, 87, 88, 100, 101, 102, 103]
-RULE = ("enumerated part: every (Z in 1..103) x (covalent, vdw, vdw_covalent) table entry once; random part: 2-14 atoms in a cell, "
+RULE = ("enumerated part: every (Z in 1..103) x (covalent, vdw, vdw_covalent) table entry once, and every atom count 1..400 (thorough 1..1200) for the custom-array clause; random part: 2-14 atoms in a cell, "
         "elements drawn from a pool that mixes elements with and without a tabulated vdW radius, preset, threshold; "
         "non-trivial = the preset is vdw_covalent and an element without a vdW radius is involved")
 ASSUMPTIONS = [
@@ -28,11 +28,70 @@ def plan(tier):
 
 
 def items(tier):
-    return [{"Z": z, "preset": p} for z in range(1, 104) for p in PRESETS]
+    # every table entry, and every atom count 1..N for the "custom per-atom array is used unchanged" clause (a custom array is
+    # recognised by nothing but its shape, so every length is its own case - lengths equal to a table's length included)
+    return ([{"Z": z, "preset": p} for z in range(1, 104) for p in PRESETS]
+            + [{"n": n} for n in range(1, 401 if tier == "quick" else 1201)])
+
+
+@st.composite
+def _length_case(draw, n):
+    return {"kind": "length", "n": n, "seed": draw(st.integers(0, 2 ** 32 - 1)), "preset": draw(st.sampled_from(["covalent", "vdw_covalent"])),
+            "thr": draw(gc.ffloat(0.3, 1.5)), "a": draw(gc.ffloat(2.2, 3.4))}
 
 
 def item_strategy(item, tier):
+    if "n" in item:
+        return _length_case(item["n"])
     return st.just({"kind": "table", "Z": item["Z"], "preset": item["preset"]})
+
+
+def _run_length(desc, out):
+    """n atoms of mixed elements on a sheet (one atom lifted off it): custom array of length n unchanged; for the lengths next to a
+    table's length also the consumers (get_dimensionality, SBC) with a preset vs the same numbers as an array."""
+    import matid
+    import matid.geometry as mg
+    from ase import Atoms
+    from ase.data import covalent_radii
+    from ase.data.vdw_alvarez import vdw_radii
+    n = desc["n"]
+    r = np.random.RandomState(desc["seed"])
+    Z = r.choice([8, 29, 55, 61, 84, 1, 14], size=n)
+    custom = r.uniform(0.2, 2.5, size=n)
+    out.cls("length")
+    special = sorted({len(covalent_radii), len(vdw_radii), 103, 104})
+    near = any(abs(n - k) <= 1 for k in special)
+    out.nontrivial = bool(near)
+    for arr_in, what in ((custom, "float array"), (list(custom), "list")):
+        ok, got = call(mg.get_radii, arr_in.copy() if hasattr(arr_in, "copy") and not isinstance(arr_in, list) else list(arr_in), Z)
+        if not ok:
+            out.fail("returns-normally", "get_radii(custom %s of length %d): %r" % (what, n, got), key="exc:custom-length:" + exc_key(got))
+        elif not _same(got, custom):
+            out.fail("custom-unchanged", "custom per-atom radii (%s of length %d) were altered: %d of %d values differ" % (
+                what, n, int((np.asarray(got, float) != custom).sum()) if np.shape(got) == custom.shape else -1, n), key="custom-unchanged:length")
+    if not (near or n <= 3 or n % 40 == 0):
+        return out
+    out.cls("length:consumers")
+    nx = int(np.ceil(np.sqrt(n)))
+    a = float(desc["a"])
+    pos = np.array([[(i % nx) * a, (i // nx) * a, 5.0] for i in range(n)], float)
+    pos[n // 2, 2] += 1.2
+    at = Atoms(numbers=Z, positions=pos, cell=[nx * a, (int(np.ceil(n / nx))) * a, 12.0], pbc=[True, True, False])
+    preset, thr = desc["preset"], float(desc["thr"])
+    arr = reference(preset, Z)
+    ok1, d1 = call(mg.get_dimensionality, at.copy(), thr, radii=preset)
+    ok2, d2 = call(mg.get_dimensionality, at.copy(), thr, radii=arr.copy())
+    if ok1 != ok2 or (ok1 and d1 != d2):
+        out.fail("dimensionality-preset-vs-array", "%d atoms: preset %r -> %r, same numbers as array -> %r" % (n, preset, d1, d2), key="dimensionality-preset-vs-array:" + preset)
+
+    def clusters(rad):
+        cl = matid.SBC().get_clusters(at.copy(), radii=rad, bond_threshold=min(thr, 1.0))
+        return sorted((sorted(int(i) for i in c.indices), c.get_dimensionality()) for c in cl)
+    ok1, c1 = call(clusters, preset)
+    ok2, c2 = call(clusters, arr.copy())
+    if ok1 != ok2 or (ok1 and c1 != c2):
+        out.fail("clustering-preset-vs-array", "%d atoms: preset %r -> %s, array -> %s" % (n, preset, str(c1)[:120], str(c2)[:120]), key="clustering-preset-vs-array:" + preset)
+    return out
 
 
 POOL_VDW = [1, 6, 8, 14, 26, 29, 47, 79, 82]
@@ -100,6 +159,8 @@ def run_case(desc):
         out.nontrivial = bool(preset == "vdw_covalent" and Z in NO_VDW)
         return out
 
+    if desc["kind"] == "length":
+        return _run_length(desc, out)
     from ase import Atoms
     import matid
     preset = desc["preset"]
